@@ -66,6 +66,21 @@ CLAIMS = {
          "Generated corpora with field lengths on the edges of the 256 norm buckets and generated scoring queries (term, phrase, boolean, nested boost, const, dismax) are scored by tantivy and by an independent BM25 over statistics computed from the model documents and a frozen norm table; explain must equal the collected score, single-clause scores are bit-identical across collectors / K and, without deletes, across a merge into one segment.",
          "relative tolerance 1e-5 per scoring clause for sums; boosted clauses compared with tolerance (different but legitimate rounding of the product in explain); explain of non-matching documents is not exercised",
          "DESIGN.md §3 C12"),
+ "C14": ("exploration",
+         "direct reference evaluator over the model documents + metamorphic partition/merge/serialisation independence of aggregation results on generated corpora and request trees (proptest)",
+         "Generated corpora (missing and multi-valued fields, negative and fractional values, values on bucket boundaries, up to 200 terms, deletes) and generated request trees of depth <= 3 over all 16 aggregation variants with a filtering query are evaluated (1) against a rustdoc-based direct evaluator and (2) metamorphically: one segment vs 1-6 segments vs 1-4 separate indexes whose intermediate results are merged with merge_fruits in generated orders and shapes with postcard round trips; counts and buckets exactly, float sums within 1e-9, sketches within their documented bounds; a generated bucket limit must error or return the complete result.",
+         "reference semantics only from the rustdoc of src/aggregation; terms aggregations compared exactly only when segment_size >= cardinality; percentiles / cardinality by error bound",
+         "DESIGN.md §3 C14"),
+ "C15": ("exploration",
+         "model-based testing of the dictionaries (sstable with all value types and block lengths, FST term dictionary, columnar dictionaries) against a sorted-vector / BTreeMap model incl. automaton streams, merges and order enforcement (proptest); bytes-to-case decoder for fuzzing",
+         "Generated key sets (empty key, 40 KB keys, long shared prefixes, 0x00/0xFF runs, sizes crossing block / 128-entry index / layer boundaries) x value types x block lengths are built and every lookup, ordinal conversion, bounded range with limit, prefix range and automaton stream (prefix, Levenshtein 0-2 +- transpositions, regex) is compared with the model (automaton streams against the same automaton run over every model key); merges must be the sorted union with correct ordinal maps; a key sequence with one order violation must be rejected by every builder.",
+         "the automaton implementation itself is shared between tantivy and the oracle (differential on pruning/streaming only); the quickwit (sstable) term dictionary of tantivy proper is exercised only when the harness is built with --features quickwit",
+         "DESIGN.md §3 C15"),
+ "C16": ("exploration",
+         "totality testing of both parsers on generated strings (in-process and in resource-limited child processes) with strict/lenient differential, plus grammar-based generation of well-formed queries checked against a naive evaluator (proptest); bytes entry point for fuzzing",
+         "Generated strings (random text, grammar-token soup, mutations of valid queries, unbalanced quotes/brackets, long inputs, deep nesting in a child process) must make tantivy_query_grammar and QueryParser (4 configurations) return; strict success implies lenient success with the same AST and no errors (known disagreement classes keyed by the lenient message); abstract queries from the documented unambiguous grammar subset are printed with meaning-preserving variation, parsed and executed, and must match exactly the documents a naive evaluation of the abstract query selects, for every typed literal.",
+         "the well-formed subset excludes the locally ambiguous mixes the grammar's own comments resolve heuristically; nesting beyond depth 96 only in a child process (stack overflow is a known finding)",
+         "DESIGN.md §3 C16"),
  "C17": ("exploration",
          "invariant + metamorphic testing: generated histories run on a sorted and on an unsorted index; per-segment sort-order invariant, sequential model, per-uid record equality (proptest)",
          "For every sort field type and direction, generated histories with reordered same-transaction deletes, merges of generated subsets and rollbacks are executed on a sorted index and identically on an unsorted one; after every commit and merge each segment's sort key (from the model) must be monotone with value-less documents first/last, the live set must equal the model and every document's canonical record (stored, fast, norms, postings) must equal the unsorted index's record of the same uid.",
